@@ -189,9 +189,12 @@ theorem setInt_render (v : Int) (h1 : -2147483648 ≤ v) (h2 : v ≤ 2147483647)
     simp only [hlen, List.length_cons, bne_self_eq_false, Bool.or_self, Bool.false_eq_true, if_false,
       IntLit.toLong, if_true]
     have : ¬ (v.natAbs > 2 ^ 63) := by rw [n63]; omega
-    simp only [this, if_false, wrap32, c32, c31]
-    congr 1
-    omega
+    simp only [this, if_false, INT_MIN, INT_MAX]
+    have e : -(v.natAbs : Int) = v := by omega
+    rw [e]
+    have hr1 : ¬ (v < -2147483648) := by omega
+    have hr2 : ¬ (v > 2147483647) := by omega
+    simp [hr1, hr2]
   · have hm : 0 < v.natAbs := by omega
     have hs := strtoBase0_render v.natAbs hm
     unfold setInt renderInt
@@ -203,9 +206,12 @@ theorem setInt_render (v : Int) (h1 : -2147483648 ≤ v) (h2 : v ≤ 2147483647)
     simp only [hlen, bne_self_eq_false, Bool.or_self, Bool.false_eq_true, if_false, IntLit.toLong,
       LONG_MAX]
     have : ¬ (v.natAbs > 2 ^ 63 - 1) := by rw [n63]; omega
-    simp only [this, if_false, wrap32, c32, c31]
-    congr 1
-    omega
+    simp only [this, if_false, INT_MIN, INT_MAX]
+    have e : (v.natAbs : Int) = v := by omega
+    rw [e]
+    have hr1 : ¬ (v < -2147483648) := by omega
+    have hr2 : ¬ (v > 2147483647) := by omega
+    simp [hr1, hr2]
 
 /-- `%u` then `cf_set_uint` -/
 theorem setUint_render (n : Nat) (h : n < 4294967296) : setUint (renderNat n) = some n := by
@@ -219,12 +225,9 @@ theorem setUint_render (n : Nat) (h : n < 4294967296) : setUint (renderNat n) = 
   have hlen : ((renderNat n).length == 0) = false := by
     simp only [beq_eq_false_iff_ne, ne_eq]
     intro h0; exact hne (List.eq_nil_of_length_eq_zero h0)
-  simp only [hlen, bne_self_eq_false, Bool.or_self, Bool.false_eq_true, if_false, IntLit.toULong,
-    ULONG_MAX]
-  have : ¬ (n > 2 ^ 64 - 1) := by rw [n64]; omega
-  simp only [this, if_false, n32]
-  congr 1
-  omega
+  simp only [hlen, bne_self_eq_false, Bool.or_self, Bool.false_eq_true, if_false, UINT_MAX]
+  have : ¬ (n > 4294967295) := by omega
+  simp [this]
 
 /-! ## rejection -/
 
@@ -301,18 +304,70 @@ theorem setInt_garbage (v : Int) (c : UInt8) (g : Bytes) (hc : digitVal c = none
 
 theorem setUint_garbage (n : Nat) (c : UInt8) (g : Bytes) (hc : digitVal c = none) :
     setUint (renderNat n ++ c :: g) = none := by
-  have := setInt_garbage (n : Int) c g hc
-  unfold setInt at this
+  have hs : Stops (c :: g) := Or.inr ⟨c, g, rfl, hc⟩
   unfold setUint
-  have e : renderInt (n : Int) = renderNat n := by
-    unfold renderInt
-    have : ¬ ((n : Int) < 0) := by omega
-    simp [this]
-  rw [e] at this
-  simp only [] at this ⊢
-  by_cases hcond : ((strtoBase0 (renderNat n ++ c :: g)).consumed == 0 ||
-      (strtoBase0 (renderNat n ++ c :: g)).consumed != (renderNat n ++ c :: g).length) = true
-  · rw [if_pos hcond]
-  · rw [if_neg hcond] at this; cases this
+  by_cases h0 : n = 0
+  · subst h0
+    have e : renderNat 0 = [48] := by decide
+    rw [e]
+    simp only [List.singleton_append, strtoBase0_zero_app c g hc]
+    simp
+  · rw [strtoBase0_render_app n (by omega) (c :: g) hs]
+    simp
+
+
+/-! ## the repaired setters store the value the text denotes, or nothing -/
+
+/-- the integer a literal denotes -/
+def litValue (l : IntLit) : Int := if l.neg then -(l.mag : Int) else (l.mag : Int)
+
+theorem setInt_exact {s : Bytes} {v : Int} (h : setInt s = some v) :
+    v = litValue (strtoBase0 s) ∧ -2147483648 ≤ v ∧ v ≤ 2147483647 := by
+  obtain ⟨c32, c31, c63, n63, n64, n32⟩ := INT_consts
+  unfold setInt at h
+  simp only [] at h
+  by_cases hc : ((strtoBase0 s).consumed == 0 || (strtoBase0 s).consumed != s.length) = true
+  · rw [if_pos hc] at h; cases h
+  · rw [if_neg hc] at h
+    by_cases h1 : (strtoBase0 s).toLong < INT_MIN
+    · simp [h1] at h
+    by_cases h2 : (strtoBase0 s).toLong > INT_MAX
+    · simp [h2] at h
+    simp only [h1, h2, decide_false, Bool.or_self, Bool.false_eq_true, if_false, Option.some.injEq] at h
+    subst h
+    unfold INT_MIN at h1
+    unfold INT_MAX at h2
+    refine ⟨?_, by omega, by omega⟩
+    unfold IntLit.toLong litValue LONG_MAX at *
+    by_cases hn : (strtoBase0 s).neg = true
+    · simp only [hn, if_true] at h1 h2 ⊢
+      by_cases hb : (strtoBase0 s).mag > 2 ^ 63
+      · simp only [hb, if_true] at h1; rw [c63] at h1; omega
+      · simp [hb]
+    · simp only [hn, Bool.false_eq_true, if_false] at h1 h2 ⊢
+      by_cases hb : (strtoBase0 s).mag > 2 ^ 63 - 1
+      · simp only [hb, if_true] at h2; rw [n63] at h2; omega
+      · simp [hb]
+
+theorem setUint_exact {s : Bytes} {v : Nat} (h : setUint s = some v) :
+    (v : Int) = litValue (strtoBase0 s) ∧ v ≤ 4294967295 := by
+  unfold setUint at h
+  simp only [] at h
+  by_cases hc : ((strtoBase0 s).consumed == 0 || (strtoBase0 s).consumed != s.length) = true
+  · rw [if_pos hc] at h; cases h
+  · rw [if_neg hc] at h
+    by_cases h1 : (strtoBase0 s).mag > UINT_MAX
+    · simp [h1] at h
+    by_cases h2 : ((strtoBase0 s).neg && (strtoBase0 s).mag != 0) = true
+    · simp [h2] at h
+    simp only [h1, h2, decide_false, Bool.or_self, Bool.false_eq_true, if_false, Option.some.injEq] at h
+    subst h
+    unfold UINT_MAX at h1
+    refine ⟨?_, by omega⟩
+    unfold litValue
+    by_cases hn : (strtoBase0 s).neg = true
+    · have : (strtoBase0 s).mag = 0 := by simpa [hn] using h2
+      simp [hn, this]
+    · simp [hn]
 
 end UsualProofs.C18
